@@ -337,6 +337,8 @@ func fixSaturation(r *core.Run) {
 		}
 		expect("PositiveOverflowError", isBound("Max"), "return of the type's own Max")
 		expect("NegativeOverflowError", isBound("Min"), "return of the type's own Min")
+		expect("UnderflowError", func(oc string) bool { return strings.HasPrefix(oc, "return:") && strings.Contains(oc, "Zero") },
+			"return of zero (the library reports a result too small to represent; truncation toward zero yields 0)")
 		expect("DivisionByZeroError", func(oc string) bool { return oc == "panic:DivisionByZeroError" }, "DivisionByZeroError")
 		expect("nil", func(oc string) bool { return strings.HasPrefix(oc, "return:") && !strings.Contains(oc, "M") }, "the unmodified result")
 		expect("default", func(oc string) bool { return strings.HasPrefix(oc, "panic:") }, "re-panic")
